@@ -69,6 +69,13 @@ def tasks(tier):
             for first in REDUCED:
                 out.append({"family": "caps-timing", "cfg": dict(cfg, script_prefix=[first]),
                             "entry": e, "bound": b, "weight": 5})
+    # overlapping calls on one policy object: re-entrant (the operation of call A runs a whole
+    # call B on the same policy) and two interleaved async calls
+    for pc, mu, mode in itertools.product([{"T": 1}, {"T": 0, "U": 1}, {}], [None, 1],
+                                          ["sync-nested", "async-interleave"]):
+        cfg = dict(M=3, per_class=pc, max_unknown=mu, alphabet=["x:T", "ok", "x:U", "r:T"])
+        out.append({"family": "overlap", "cfg": cfg, "entry": mode, "bound": 0,
+                    "weight": 6 if mode == "async-interleave" else 2})
     # carry-over between consecutive calls on one policy object
     for pc, mu in itertools.product([{}, {"T": 1}, {"U": 1}, {"T": 0}], [None, 1, 2]):
         cfg = dict(M=3 if tier == "quick" else 4, per_class=pc, max_unknown=mu, alphabet=REDUCED)
@@ -80,11 +87,17 @@ def tasks(tier):
 def monitor(w, cfg):
     """Specification monitor, from the statement of C01 and the observed trace only."""
     v = []
+    for call in split_calls(w.trace):
+        v.extend(check_caps(call.ops, cfg))
+    return v
+
+
+def check_caps(ops, cfg):
+    v = []
     M = cfg["M"]
     pc = cfg["per_class"]
     mu = cfg["max_unknown"]
-    for call in split_calls(w.trace):
-        ops = call.ops
+    if True:
         if len(ops) > M:
             v.append(("caps.global", f"operation invoked {len(ops)} times, max_attempts={M}"))
         retried = {}
@@ -147,12 +160,137 @@ def run_carry(cfg, entry, ch):
     return w, v
 
 
+class _OvOp:
+    """Minimal op record compatible with check_caps."""
+
+    def __init__(self, n, label):
+        from ..tracelib import Op
+        o = Op(("op", n, label, 0.0, 0.0, None))
+        self.__dict__.update({k: getattr(o, k) for k in Op.__slots__})
+        self.failed = o.failed
+
+    def __repr__(self):
+        return f"op{self.n}:{self.label}"
+
+
+def run_overlap(cfg, mode, ch):
+    """Two logical calls A and B overlapping on ONE policy object; each must obey the caps on
+    its own (no counter shared between calls)."""
+    from redress.policy import AsyncRetry, Retry
+    full = seq.mkcfg(**cfg)
+    E = seq.E
+    E.set_clock(E.Clock())
+    alphabet = full["alphabet"]
+    logs = {"A": [], "B": []}
+
+    class Err(Exception):
+        pass
+
+    class Res:
+        def __init__(self, k):
+            self.k = k
+
+    def classify(exc):
+        return seq.KL[exc.k]
+
+    def rclassify(res):
+        return seq.KL[res.k] if isinstance(res, Res) else None
+
+    kw = dict(classifier=classify, result_classifier=rclassify, strategy=lambda ctx: 0.0,
+              max_attempts=full["M"], max_unknown_attempts=full["max_unknown"], deadline_s=1.0e6,
+              per_class_max_attempts={seq.KL[k]: n for k, n in full["per_class"].items()})
+
+    def outcome(who):
+        lab = alphabet[ch.choose("op", len(alphabet), True)]
+        logs[who].append(lab)
+        return lab
+
+    def finish(lab):
+        if lab == "ok":
+            return "value"
+        if lab.startswith("r:"):
+            return Res(lab[2:])
+        e = Err(lab)
+        e.k = lab[2:]
+        raise e
+
+    class W:
+        pass
+    w = W()
+    w.trace = []
+    if mode == "sync-nested":
+        pol = Retry(sleeper=lambda s: None, **kw)
+        nested = {"done": False}
+
+        def op_b():
+            return finish(outcome("B"))
+
+        def op_a():
+            lab = outcome("A")
+            if not nested["done"] and ch.choose("nest", 2, True):
+                nested["done"] = True
+                try:
+                    pol.call(op_b)
+                except Exception:  # noqa: BLE001
+                    pass
+            return finish(lab)
+
+        try:
+            pol.call(op_a)
+        except Exception:  # noqa: BLE001
+            pass
+    else:
+        pol = AsyncRetry(sleeper=lambda s: None, **kw)
+
+        def make(who):
+            async def op():
+                lab = outcome(who)
+                await seq.Suspend("op")
+                return finish(lab)
+            return op
+
+        coros = {"A": pol.call(make("A")), "B": pol.call(make("B"))}
+        live = []
+        for who in ("A", "B"):
+            try:
+                coros[who].send(None)
+                live.append(who)
+            except (StopIteration, Exception):  # noqa: BLE001
+                pass
+        while live:
+            who = live[ch.choose("sched", len(live), True)] if len(live) > 1 else live[0]
+            w.trace.append(("resume", who))
+            try:
+                coros[who].send(None)
+            except (StopIteration, Exception):  # noqa: BLE001
+                live.remove(who)
+    v = []
+    for who in ("A", "B"):
+        ops = [_OvOp(i + 1, lab) for i, lab in enumerate(logs[who])]
+        for key, msg in check_caps(ops, full):
+            v.append((key.replace("caps.", "caps.overlap-"), f"call {who} overlapping with another "
+                                                            f"call on the same policy: {msg}"))
+    w.trace += [("call", 1, mode, 0.0), ("ops", "A", tuple(logs["A"])), ("ops", "B", tuple(logs["B"])),
+                ("end", "ret", None)]
+    return w, v
+
+
+def overlap_sig(w):
+    a = next(r for r in w.trace if r[0] == "ops" and r[1] == "A")[2]
+    b = next(r for r in w.trace if r[0] == "ops" and r[1] == "B")[2]
+    return (("overlap", len(a), len(b), None), a + ("|",) + b)
+
+
 def run_task(task, seed):
+    if task["family"] == "overlap":
+        return explore_task(task, seed, run_overlap, sig=overlap_sig)
     runner = run_carry if task["family"] == "carry" else run_plain
     return explore_task(task, seed, runner)
 
 
 def replay(doc):
+    if doc["family"] == "overlap":
+        return run_overlap(doc["cfg"], doc["entry"], Chooser(tuple(doc["choices"])))
     runner = run_carry if doc["family"] == "carry" else run_plain
     ch = Chooser(tuple(doc["choices"]))
     return runner(doc["cfg"], doc["entry"], ch)
